@@ -20,6 +20,11 @@ RULE = (
     "only for exactly one zero-column row, max_rows == 0 only for no rows; the sub-program results are also compared "
     "with the reference model so the consumers of these flags (join elision, empty short-circuit) are exercised.  "
     "Non-trivial = tree has >= 3 nodes; distinct = program skeleton x engine x set of bound shapes seen."
+    "  Every tree is also evaluated through Processor.process (a consumer of the flags: it prunes chain operands it "
+    "takes for empty and never evaluates statically trivial transfers) and compared with the model; unions of "
+    "zero-column relations with a join-identity operand are generated on purpose; in SQL programs every node that "
+    "holds a cached payload after processing is executed, a selection and a calculation built on it are executed, "
+    "and it is executed again - bounds and rows must not have changed. "
 )
 ASSUMPTIONS = [
     "leaf declarations are truthful by construction of the generator (min <= actual <= max)",
